@@ -65,7 +65,13 @@ class C07(scen.WorldProp):
                 stop_t = t0 + 3 + rng.uniform(0.2, 13) * row_t
                 events.append(call(stop_t, stop))
             end = t0 + 3 + 22 * row_t
-            sc = {"start": 1000.0, "end": end, "tower_size": N, "events": events,
+            N0 = N
+            if rng.random() < 0.25:
+                # Wheatley joins a bigger tower, which is made smaller before the touch
+                N0 = N + rng.choice([1, 2, 4])
+                events.append([t0 - rng.uniform(0.3, 0.8), "msg", {"m": "size_change", "size": N}])
+                events.sort(key=lambda e: e[0])
+            sc = {"start": 1000.0, "end": end, "tower_size": N0, "events": events,
                   "bot": scen.bot_cfg(spec, up_down_in=udi, stop_at_rounds=sar),
                   "rhythm": scen.rhythm_cfg(rng.choice(["wait", "regression"]), peal_speed=ps)}
             yield {"k": "world", "scenario": sc, "stop": stop, "stop_t": stop_t, "t0": t0}
@@ -81,6 +87,9 @@ class C07(scen.WorldProp):
         if reply["crashed"] or reply["handler_crashes"]:
             return f"crash: main={reply['crashed']} handlers={reply['handler_crashes']}"
         N = sc["tower_size"]
+        for ev in sc["events"]:
+            if ev[2].get("m") == "size_change":
+                N = ev[2]["size"]
         strikes = reply["strikes"]
         rows = scen.rows_from_strikes(reply, N)
         rounds = list(range(1, N + 1))
@@ -96,6 +105,17 @@ class C07(scen.WorldProp):
             odd = [b for b, c in counts.items() if c % 2]
             if odd:
                 return f"bells {odd} were left at backstroke (odd number of strikes)"
+        if sar and stop != ROUNDS and rows:
+            # handbell-style stop: once rounds has come up after the method started, the whole pull is completed
+            # and nothing more is rung
+            first = next((i for i in range(len(rows)) if rows[i] != rows[0]), None)
+            if first is not None:
+                j = next((i for i in range(first, len(rows)) if rows[i] == rounds), None)
+                if j is not None:
+                    want = j + 1 if j % 2 == 1 else j + 2
+                    if len(rows) > want:
+                        return (f"stop-at-rounds: rounds came up in row {j} after the method had started, yet {len(rows)} "
+                                f"rows were rung (expected {want})")
         if stop is None or not strikes:
             return None
         k = sum(1 for (t, _, _) in strikes if scen.b2f(t) < tc) // N
